@@ -5,7 +5,7 @@ import json, os, shutil, subprocess, sys, tempfile, time
 VERIF = '/verif'
 ALL = ['C%02d' % i for i in range(1, 21)]
 ids = sys.argv[1:] or sorted(d for d in os.listdir(VERIF + '/seeded') if os.path.exists(VERIF + '/seeded/' + d + '/meta.json'))
-out_path = VERIF + '/seeded/results.json'
+out_path = os.environ.get('MATRIX_OUT', VERIF + '/seeded/results.json')
 results = json.load(open(out_path)) if os.path.exists(out_path) else {}
 
 
